@@ -93,3 +93,16 @@ Lemma ex_refuted_values :
   pick 0 rops (snd (erun 1 0 50 rops e [])) = [xans "a"; xans "b"; otag "done" []]
   /\ snd (erun 1 0 50 (filter (is_slot 0) rops) e []) = [xans "a"; otag "done" []; otag "done" []].
 Proof. vm_compute. split; reflexivity. Qed.
+
+(* the read-only hypothesis of same_engine_slots is inhabited by the run of IsolationExamples.ex_slots *)
+Lemma ex_nowrite : nowrite 1 0 50 xops xe [] /\ Forall qop xops /\ sinv 1 0 xPQ xe [].
+Proof.
+  split; [|split; [repeat constructor; discriminate|exact ex_sinv]].
+  vm_compute.
+  repeat match goal with
+         | |- _ /\ _ => split
+         | |- Forall _ _ => constructor
+         | |- True => exact I
+         | |- _ = _ => reflexivity
+         end.
+Qed.
